@@ -404,7 +404,9 @@ package otto
 // only canonical array indices below 2^32-1 are indices (range part; canonical form: see DESIGN)
 //@ func stringToArrayIndex
 //@   props C08
+//@   safety C02 C08
 //@   ensures result == -1 || (0 <= result && result < 4294967295)
+//@   ensures result >= 0 ==> len(name) > 0 && name[0] >= '0' && name[0] <= '9' && (name[0] == '0' ==> len(name) == 1)
 //@   nothrow
 //@   pure
 
@@ -1272,3 +1274,25 @@ package otto
 //@   props C16
 //@   safety C02 C16
 //@   assumes o.keyType != nil
+
+// ---------------------------------------------------------------------------
+// type_array.go: [[DefineOwnProperty]] of arrays, ES5 15.4.5.1 (C08)
+// ---------------------------------------------------------------------------
+
+// What is written to "length": the validated new length (steps 3.c-3.i); when truncation
+// stops at an element that cannot be deleted, one more than the index of that element
+// (step 3.l.iii.1), so that length stays greater than every index present; when an index
+// at or beyond the current length is defined, that index plus one (step 4.e).  The
+// truncation loop runs from the old length down to the new one and terminates.
+//@ func arrayDefineOwnProperty
+//@   props C08
+//@   nosafety
+//@   abstract_callee objectDefineOwnProperty, (*object).getOwnProperty, (*object).delete
+//@   abstract_callee objectDefineOwnProperty, (*object).getOwnProperty, (*object).delete
+//@   requires obj != nil && obj.runtime != nil
+//@   requires is(descriptor.value, Value) ==> jsValue(descriptor.value.(Value))
+//@   invariant@1 newLength <= length
+//@   decreases@1 length
+//@   at_call objectDefineOwnProperty : arg1 == "length" && name != "length" ==> is(arg2.value, Value) && is(arg2.value.(Value).value, uint32) && int64(arg2.value.(Value).value.(uint32)) == index + 1 && index >= int64(length#init)
+//@   at_call objectDefineOwnProperty : arg1 == "length" && name == "length" && !isnil(old(descriptor.value)) ==> is(arg2.value, Value) && is(arg2.value.(Value).value, uint32)
+//@   at_call objectDefineOwnProperty : arg1 == "length" && name == "length" && !isnil(old(descriptor.value)) && !arg3 && arg2.value.(Value).value.(uint32) != newLength ==> arg2.value.(Value).value.(uint32) == length#upd + 1 && newLength <= length#upd
